@@ -33,8 +33,18 @@ func Build(dir string, rows []model.Row, w Writer) (string, []uint32, error) {
 	return BuildFunc(dir, len(rows), func(i int) model.Row { return rows[i] }, w)
 }
 
+// TolerateRejects: an AddRow that returns an error is taken as "this row was refused" (recorded in Rejected, id slot
+// RejectedID) instead of ending the build: a writer may validate its input; what it must not do is add half of a row.
+var (
+	TolerateRejects bool
+	Rejected        []int
+)
+
+const RejectedID = ^uint32(0)
+
 func BuildFunc(dir string, n int, row func(i int) model.Row, w Writer) (string, []uint32, error) {
 	seq++
+	Rejected = nil
 	path := filepath.Join(dir, fmt.Sprintf("ix%d-%s.updog", seq, w))
 	ids := make([]uint32, 0, n)
 	switch w {
@@ -42,6 +52,11 @@ func BuildFunc(dir string, n int, row func(i int) model.Row, w Writer) (string, 
 		iw := updog.NewIndexWriter(path)
 		for i := 0; i < n; i++ {
 			id, err := iw.AddRow(row(i))
+			if err != nil && TolerateRejects {
+				Rejected = append(Rejected, i)
+				ids = append(ids, RejectedID)
+				continue
+			}
 			if err != nil {
 				return "", nil, err
 			}
@@ -87,6 +102,11 @@ func BuildFunc(dir string, n int, row func(i int) model.Row, w Writer) (string, 
 		}
 		for i := 0; i < n; i++ {
 			id, err := bw.AddRow(row(i))
+			if err != nil && TolerateRejects {
+				Rejected = append(Rejected, i)
+				ids = append(ids, RejectedID)
+				continue
+			}
 			if err != nil {
 				abort()
 				return "", nil, err
